@@ -9,36 +9,50 @@ ASSUMPTIONS = [
     'sequentially consistent interleaving at the granularity "one critical section of the semaphore spinlock = one step"; value_/lower_limit_/cv queue are only touched under that lock (checked by reading the anchored files)',
     'agent contract of Base/Agent.v for pika tasks (token per phase, resume never blocks); default_agent transcription for OS threads (resume enabled only when the target is blocked in suspend; sleep_until never marks it not running)',
     'step correspondence is checked on OS threads only (kind = OsThr, no timed operations: real time is not controlled); the Task instance of the model is tied by the ledger/timed monitors on the running runtime, not step by step',
-    'counting and sliding semaphore share one model (same cv mechanics); programs use one family; set_max_difference and signal_all are not modelled',
+    'counting and sliding semaphore share one model (same cv mechanics); programs use one family; signal_all returns lower_limit_ after the lock was given away: the read is modelled as part of the last critical section of the call (exact under lock-step: no parking point in between)',
     'time: a timed wait is a step enabled by an oracle bit "deadline passed"; no quantitative time in the model',
 ]
 
 SITE_NAMES = {'1': 'op', '2': 'suspend', '3': 'wake', '5': 'sigloop'}
 
 
+def parse_op(o):
+    """(kind, n, lo): lo is only used by M<md>:<lo> = set_max_difference(md, lo)"""
+    if o[0] == 'M':
+        a, b = o[1:].split(':')
+        return ('M', int(a), int(b))
+    return (o[0], int(o[1:]), 0)
+
+
+def res_tokens(s):
+    """per-thread result string -> one token per completed operation ('0', '1' or '[value]' for signal_all)"""
+    return re.findall(r'\[-?\d+\]|[01]', s)
+
+
 def parse_in(inl):
     p = inl.split(' ')
     fam, v0, lo0, md, T = p[3], int(p[4]), int(p[5]), int(p[6]), int(p[7])
-    progs = [[] if x in ('-', '') else [(o[0], int(o[1:])) for o in x.split(',')] for x in p[8:8 + T]]
+    progs = [[] if x in ('-', '') else [parse_op(o) for o in x.split(',')] for x in p[8:8 + T]]
     sched = [] if p[8 + T] == '-' else [int(x) for x in p[8 + T].split(',')]
     return fam, v0, lo0, md, T, progs, sched
 
 
-def ls_monitor(inl, outl):
-    """the property itself on the implementation's observations of one lock-step case"""
+def ls_monitor(inl, outl, complete=True):
+    """the property itself on the implementation's observations of one lock-step case
+    (complete: the schedule ran until nobody was parked at a schedulable point)"""
     fam, v0, lo0, md, T, progs, sched = parse_in(inl)
     f = dict(x.split('=', 1) for x in outl.split(' ')[3:])
-    res = f['res'].split('|')
+    res = [res_tokens(x) for x in f['res'].split('|')]
     blocked = [] if f['blocked'] == '-' else [int(x) for x in f['blocked'].split(',')]
     final = int(f['final'])
     if len(res) != T:
         return 'format', 'bad OUT line'
     if fam == 'C':
         rel = acq = 0
-        public = all(n == 1 for pr in progs for (k, n) in pr if k in 'AW')
+        public = all(n == 1 for pr in progs for (k, n, _) in pr if k in 'AW')
         for t in range(T):
             for i, c in enumerate(res[t]):
-                k, n = progs[t][i]
+                k, n, _ = progs[t][i]
                 if k == 'R':
                     rel += n
                 elif c == '1':
@@ -59,22 +73,64 @@ def ls_monitor(inl, outl):
             if t not in blocked and len(res[t]) != len(progs[t]):
                 return 'thread_vanished', 'thread %d neither finished nor blocked' % t
     else:
+        # sliding semaphore: the schedule is a total order of critical sections, so lower_limit_ and
+        # max_difference_ can be followed from the input alone (no model involved): signal(x) at its
+        # first step sets max(x, lower), set_max_difference(md, lo) at its first step overwrites both
+        sites = [] if f['sites'] == '-' else [int(x) for x in f['sites'].split(',')]
+        if len(sites) != len(sched):
+            return 'format', 'sites and schedule differ in length'
+        lower, maxd = lo0, md
+        nstarted = [0] * T
+        last = {}        # (thread, op index) -> (lower, maxd) right after the thread's latest step in that op
+        at_start = {}    # (thread, op index) -> (lower, maxd) at the first critical section of that op
+        for t, site in zip(sched, sites):
+            if t >= T:
+                return 'format', 'bad thread in schedule'
+            if site == 1:
+                if nstarted[t] >= len(progs[t]):
+                    return 'thread_vanished', 'thread %d starts more operations than its program has' % t
+                k, n, lo = progs[t][nstarted[t]]
+                nstarted[t] += 1
+                if k == 'G':
+                    lower = max(n, lower)
+                elif k == 'M':
+                    maxd, lower = n, lo
+                at_start[(t, nstarted[t] - 1)] = (lower, maxd)
+            if nstarted[t] == 0:
+                return 'format', 'thread %d steps before its first operation' % t
+            last[(t, nstarted[t] - 1)] = (lower, maxd)
         for t in range(T):
             for i, c in enumerate(res[t]):
-                k, u = progs[t][i]
-                if k == 'S' and u - md > final:
-                    return 'sliding_wait_returned_early', 'wait(%d) returned but final lower limit is %d (maxd %d)' % (u, final, md)
-                if k == 'T' and c == '1' and u - md > final:
-                    return 'sliding_try_wait_true_outside', 'try_wait(%d) true, final lower %d, maxd %d' % (u, final, md)
-        sig = [u for t in range(T) for i, (k, u) in enumerate(progs[t]) if k == 'G' and i < len(res[t])]
-        if final != max([lo0] + sig):
-            return 'sliding_lower_not_max', 'final lower limit %d != max(initial %d, completed signals %s)' % (final, lo0, sig)
+                if i >= len(progs[t]):
+                    return 'format', 'thread %d returned from more operations than its program has' % t
+                k, u, _ = progs[t][i]
+                if (t, i) not in last:
+                    return 'thread_vanished', 'thread %d completed op %d without a step' % (t, i)
+                lw, mx = last[(t, i)]
+                if k == 'S' and u - mx > lw:
+                    return 'sliding_wait_returned_early', 'wait(%d) returned with lower limit %d, max_difference %d' % (u, lw, mx)
+                if k == 'T':
+                    lw0, mx0 = at_start[(t, i)]
+                    if (c == '1') != (u - mx0 <= lw0):
+                        return ('sliding_try_wait_true_outside' if c == '1' else 'sliding_try_wait_false_inside',
+                                'try_wait(%d) returned %s with lower limit %d, max_difference %d' % (u, c, lw0, mx0))
+                if k == 'Z' and c != '[%d]' % lw:
+                    return 'sliding_signal_all_result', 'signal_all() returned %s, lower limit at its return is %d' % (c, lw)
+                if k != 'Z' and c.startswith('['):
+                    return 'format', 'bad result token'
+        if final != lower:
+            return 'sliding_lower_not_max', ('final lower limit %d (probed with the max_difference last set, %d) != %d = what the '
+                                             'completed first critical sections of signal/set_max_difference give from the initial %d'
+                                             % (final, maxd, lower, lo0))
         for t in blocked:
             i = len(res[t])
             if i >= len(progs[t]) or progs[t][i][0] != 'S':
                 return 'blocked_in_nonblocking_op', 'thread %d blocked in op %d' % (t, i)
-            if progs[t][i][1] - md <= final:
-                return 'sliding_blocked_within_window', 'thread %d blocked in wait(%d) although lower limit is %d (maxd %d) and nobody is running' % (t, progs[t][i][1], final, md)
+            if progs[t][i][1] - maxd <= lower:
+                return 'sliding_blocked_within_window', 'thread %d blocked in wait(%d) although lower limit is %d (max_difference %d) and nobody is running' % (t, progs[t][i][1], lower, maxd)
+        for t in range(T):
+            if complete and t not in blocked and len(res[t]) != len(progs[t]):
+                return 'thread_vanished', 'thread %d neither finished nor blocked' % t
     return None
 
 
@@ -111,7 +167,8 @@ def run_tasks(ctx, r, h, mode, seed, n, timeout, expect_known=False):
 def run(ctx):
     r = Result()
     r.rule = ('LOCKSTEP: c08_lockstep generates (family, initial count / lower / max_difference, 1..5 OS threads, per-thread '
-              'programs of acquire(n)/try_acquire/try_wait(n)/release(n) or sliding wait/try_wait/signal) from VERIF_SEED; the '
+              'programs of acquire(n)/try_acquire/try_wait(n)/release(n) or sliding wait/try_wait/signal and, in half of the sliding '
+              'cases, signal_all/set_max_difference) from VERIF_SEED; the '
               'controller picks the interleaving of critical sections, suspends, wake-ups and signal-loop iterations of the real '
               'semaphore; the extracted model replays the schedule and must predict site sequence, every return value, the set '
               'of threads blocked at the end and the final count/lower limit.  non-trivial = >=2 threads and at least one '
@@ -163,6 +220,12 @@ def run(ctx):
             r.count('ls:threads=%d' % T)
             if 'blocked=-' not in o_:
                 r.count('ls:ends_with_blocked_threads')
+            if any(k == 'M' for pr in progs for (k, _, _) in pr):
+                r.count('ls:with_set_max_difference')
+                if any(k == 'S' for pr in progs for (k, _, _) in pr) and '2' in sites:
+                    r.count('ls:set_max_difference_with_suspended_waiters')
+            if any(k == 'Z' for pr in progs for (k, _, _) in pr):
+                r.count('ls:with_signal_all')
             if ',5' in sites or '=5' in sites:
                 r.count('ls:signal_loop_iterations')
             if T >= 2 and ('2' in sites or '5' in sites):
@@ -194,31 +257,56 @@ def run(ctx):
     # counts 2 and 1 queued, signal(1)): the model must predict the run; the expected outcome (stuck, threads
     # 0 and 1 blocked, one permit available) is an observation about the detail API, not a violation
     h_rp = ctx.build_harness('c08_replay', 'c08_replay.cpp')
-    rc, out = sh([h_rp, 'C', '0', '0', '0', 'A2;A1;R1', '0,0,1,1,2,2,0,0'], timeout=120)
-    lines = out.split('\n')
-    ins = [x for x in lines if x.startswith('IN ')]
-    outs = [x for x in lines if x.startswith('OUT ')]
-    for hl in [x for x in lines if x.startswith('HIT ')]:
-        pp = hl.split(' ', 2)
-        r.hits.append(Hit('monitor', 'C08:' + pp[1], 'replay of the mixed-count witness on the real semaphore: ' + pp[2],
-                          {'harness': 'c08_replay', 'args': ['C', 0, 0, 0, 'A2;A1;R1', '0,0,1,1,2,2,0,0']}))
-    if rc != 0 or not any(x.startswith('DONE') or x.startswith('HIT') for x in lines):
-        r.hits.append(Hit('monitor' if rc in (124, -6, 134, -11, 139) else 'tie', 'C08:replay:crash_or_hang',
-                          'c08_replay ended abnormally rc=%s: %s' % (rc, out[-300:]), {'harness': 'c08_replay'}))
+
+    def replay(args, what):
+        rc, out = sh([h_rp] + args, timeout=120)
+        lines = out.split('\n')
+        ins = [x for x in lines if x.startswith('IN ')]
+        outs = [x for x in lines if x.startswith('OUT ')]
+        for hl in [x for x in lines if x.startswith('HIT ')]:
+            pp = hl.split(' ', 2)
+            r.hits.append(Hit('monitor', 'C08:' + pp[1], 'replay of %s on the real semaphore: %s' % (what, pp[2]),
+                              {'harness': 'c08_replay', 'args': args}))
+        if rc != 0 or not any(x.startswith('DONE') or x.startswith('HIT') for x in lines):
+            r.hits.append(Hit('monitor' if rc in (124, -6, 134, -11, 139) else 'tie', 'C08:replay:crash_or_hang',
+                              'c08_replay ended abnormally rc=%s: %s' % (rc, out[-300:]), {'harness': 'c08_replay', 'args': args}))
+        if ins and outs:
+            rc2, mout = sh([drv], input=ins[0] + '\n', timeout=120)
+            mouts = [x for x in mout.split('\n') if x.startswith('OUT ')]
+            diffs, ncases = diff_lines(ctx, outs[:1], mouts[:1])
+            r.evaluations += ncases
+            r.traces += ncases - len(diffs)
+            for (k, a, b) in diffs:
+                r.hits.append(Hit('corr', 'C08:replay:correspondence',
+                                  '%s: implementation and model differ: impl [%s] model [%s] input [%s]' % (what, a, b, ins[0]),
+                                  {'harness': 'c08_replay', 'case': ins[0], 'impl': a, 'model': b}))
+        return ins, outs, 'STUCK 1' in lines
+
+    ins, outs, stuck = replay(['C', '0', '0', '0', 'A2;A1;R1', '0,0,1,1,2,2,0,0'], 'the mixed-count witness')
     if ins and outs:
-        rc2, mout = sh([drv], input=ins[0] + '\n', timeout=120)
-        mouts = [x for x in mout.split('\n') if x.startswith('OUT ')]
-        diffs, ncases = diff_lines(ctx, outs[:1], mouts[:1])
-        r.evaluations += ncases
-        r.traces += ncases - len(diffs)
-        for (k, a, b) in diffs:
-            r.hits.append(Hit('corr', 'C08:replay:correspondence',
-                              'mixed-count witness: implementation and model differ: impl [%s] model [%s] input [%s]' % (a, b, ins[0]),
-                              {'harness': 'c08_replay', 'case': ins[0], 'impl': a, 'model': b}))
-        stuck = 'STUCK 1' in lines
         r.notes.append('mixed-count witness (C08_no_blocked_with_permits_mixed_counts_refuted) replayed on the real code: %s; stuck=%s '
                        '(expected: blocked=0,1 final=1 — a count-1 waiter blocked with a permit available; detail API only)'
                        % (outs[0], stuck))
         r.extra['mixed_count_witness_reproduced'] = bool(stuck and 'blocked=0,1' in outs[0] and outs[0].endswith('final=1'))
+    # ---- the former counterexample of C08_sliding_wait_progress (repaired in the repo: set_max_difference notifies):
+    # max_difference 1, lower 0; thread 0: wait(5) blocks (5 - 1 > 0); thread 1: set_max_difference(10, 0).
+    # Before the fix the real code ended here with nobody runnable and thread 0 blocked although 5 - 10 <= 0
+    # (OUT ... res=|1 blocked=0 final=0, STUCK 1).  The property monitor judges the observation alone.
+    for sched_, want in (('0,0,1', 'res=|1 blocked=- final=0'), ('0,0,1,0', 'res=1|1 blocked=- final=0')):
+        args = ['S', '0', '0', '1', 'S5;M10:0', sched_]
+        ins, outs, stuck = replay(args, 'the set_max_difference witness')
+        if ins and outs:
+            m = ls_monitor(ins[0], outs[0], complete=stuck)
+            if m and m[0] == 'sliding_blocked_within_window':
+                r.hits.append(Hit('monitor', 'C08:sliding:set_max_difference:waiter_stranded',
+                                  'wait(5) on sliding_semaphore(max_difference 1, lower 0) blocks; set_max_difference(10, 0) from another '
+                                  'thread makes its condition true (5 - 10 <= 0) but the waiter is never woken: %s; observed %s'
+                                  % (m[1], outs[0]), {'harness': 'c08_replay', 'args': args, 'observed': outs[0]}))
+            elif m:
+                r.hits.append(Hit('monitor', 'C08:ls:' + m[0], 'set_max_difference witness under lock-step: %s; observed %s' % (m[1], outs[0]),
+                                  {'harness': 'c08_replay', 'args': args, 'observed': outs[0]}))
+            r.extra['set_max_difference_witness_%d_steps' % len(sched_.split(','))] = outs[0]
+            if want not in outs[0]:
+                r.notes.append('set_max_difference witness, schedule %s: observed [%s], expected [... %s]' % (sched_, outs[0], want))
     r.extra['lockstep_traces_validated'] = r.traces
     return r
